@@ -12,6 +12,8 @@ SubDir == <<115, 117, 98, 47>>      \* "sub/" : an (empty) sub-directory of the 
 Queries == << aTxt, ATXT, DotSlash \o aTxt, bMap, Upper(bMap), DotSlash \o Upper(bMap), bTxt, Upper(bTxt), cTrk, Upper(cTrk), <<47>> \o aTxt, <<113>>,
               SubDir \o aTxt, Upper(SubDir) \o ATXT, DotSlash \o SubDir \o bMap, <<111, 47>> \o cTrk >>
 ExtTxt == <<46,116,120,116>>   ExtMap == <<46,109,97,112>>
+\* the spellings of an extension: with and without the dot, in either case, a proper prefix of an extension, the empty one
+TypeQueries == << ExtTxt, Upper(ExtTxt), <<116,120,116>>, <<84,88,84>>, <<46,84,120,116>>, ExtMap, <<77,97,112>>, <<>>, <<46,116,120>>, <<120,116>>, <<46>> >>
 Pat(k, t) == [kind |-> k, text |-> t]
 \* "root" and "s" occur in the directory part of the sandbox path but in no file name: a pattern evaluated on the path would match everything
 Patterns == << Pat("prefix", <<97>>), Pat("suffix", <<46,116,120,116>>), Pat("contains", <<98,46>>), Pat("exact", aTxt), Pat("contains", <<118,111,108>>),
@@ -38,9 +40,10 @@ Next == /\ ~done /\ done' = TRUE
                      res |-> [i \in 1..Len(Queries) |-> [withArch |-> Resolve(L, Queries[i], TRUE), noArch |-> Resolve(L, Queries[i], FALSE),
                                                           containing |-> IF IsRooted(Queries[i]) THEN <<63>> ELSE ContainingArchive(L, Queries[i])]],
                      pats |-> [i \in 1..Len(Patterns) |-> [withArch |-> ListByPattern(L, Patterns[i], TRUE), noArch |-> ListByPattern(L, Patterns[i], FALSE)]],
+                     types |-> [i \in 1..Len(TypeQueries) |-> [withArch |-> ListOfType(L, TypeQueries[i], TRUE), noArch |-> ListOfType(L, TypeQueries[i], FALSE)]],
                      txt |-> ListOfType(L, ExtTxt, TRUE), txtLoose |-> ListOfType(L, ExtTxt, FALSE), map |-> ListOfType(L, ExtMap, TRUE)]
                  rev == [i \in 1..Len(vols) |-> vols[Len(vols) + 1 - i]]
-             IN Emit(<<pl, clm, looseC>>, << [op |-> "resmgr", loose |-> loose, vols |-> vols, clms |-> clms, queries |-> Queries, patterns |-> Patterns,
+             IN Emit(<<pl, clm, looseC>>, << [op |-> "resmgr", loose |-> loose, vols |-> vols, clms |-> clms, queries |-> Queries, patterns |-> Patterns, types |-> TypeQueries,
                                               answers |-> << Answers(vols \o clms), Answers(rev \o clms) >>] >>)
 Spec == Init /\ [][Next]_done
 ====
